@@ -9,7 +9,8 @@ from harness.core import enc_str, dec_str
 PROPERTY = "C15"
 READY = True
 THEOREMS = ["C15.clauses_ok", "C15.consts_ok", "C15.only_rejections", "C15.selects_eval", "C15.selects",
-            "C15.placeholders", "C15.values_only_bound", "C15.noninterference", "C15.none_ignored"]
+            "C15.placeholders", "C15.placeholders_in_order", "C15.values_only_bound", "C15.noninterference", "C15.none_ignored",
+            "C15.kwargs_order", "C15.in_semantics", "C15.returns_exactly", "C15.satisfied_iff", "C15.methods"]
 
 
 # ------------------------------------------------------------------ translator
@@ -1084,7 +1085,9 @@ def _fixed_scenarios():
 def gen_cases(rng, tier):
     for s in _fixed_scenarios():
         yield _mk_case(s, "fixed-shapes")
-    n = 2500 if tier == "quick" else 90000
+    if tier != "quick":                      # exhaustive small scope: every operation x every kind of value
+        yield from search_cases(rng, tier)
+    n = 6000 if tier == "quick" else 150000
     for i in range(n):
         r = rng.random()
         if r < 0.70:
@@ -1157,6 +1160,8 @@ def _smaller_conds(c):
                 yield ("O", c[1][:i] + [y] + c[1][i + 1:], c[2])
         for i in range(len(c[2])):
             yield ("O", c[1], c[2][:i] + c[2][i + 1:])
+            for a2 in _smaller_args(c[2][i][1]):
+                yield ("O", c[1], c[2][:i] + [(c[2][i][0], a2)] + c[2][i + 1:])
 
 
 def shrink(case):
@@ -1263,6 +1268,24 @@ ASSUMPTIONS = ["SQLite evaluates the text render(w) as the model's semW says (mo
                "field names, SELECT/GROUP BY/ORDER BY texts contain no placeholder character",
                "raw string conditions and '=' with a set are out of domain (a set is refused by sqlite3 as a parameter: "
                "generated only in the malformed stream)"]
-LEVEL_TEXT = "in progress"
-LEVEL_NOTE = "in progress"
-TECHNIQUE = "Lean 4 theorems over a WHERE-clause AST + translator for the clause tables + correspondence against real sqlite3"
+LEVEL_TEXT = ("Proved in Lean for all calls, rows and tables, on the model that the driver executes: the value of the generated "
+              "WHERE clause under SQL three-valued logic equals the AND of what the caller's conditions mean (=/!= with None "
+              "-> IS [NOT] NULL, with a list/tuple -> [NOT] IN, empty IN false / empty NOT IN true, OR groups incl. nested "
+              "and keyword members, None arguments ignored, keyword filters = equality in any order) [selects_eval, selects, "
+              "returns_exactly, satisfied_iff, none_ignored, kwargs_order, in_semantics, methods]; one placeholder mark per "
+              "bound value and every clause consumes exactly the values of its own marks, left to right [placeholders, "
+              "placeholders_in_order]; the text does not change by one character when only values change [values_only_bound, "
+              "noninterference]; no failure other than ValueError/AttributeError of a constructor or a refused parameter "
+              "[only_rejections]; both clause tables and all fixed text pieces, regenerated from ak/mtd_sql.py on every run, "
+              "spell the SQL the AST nodes mean [clauses_ok, consts_ok]. Model = code (SQL text, parameter list, returned ids "
+              "for list/all/one/one_or_none/SqlMethodT, exception classes) by a differential run against the real SqlMethod on "
+              "a real in-memory sqlite3; that SQLite evaluates the text as the model's 3-valued semantics says rests on that "
+              "run only (modelled, not verified).")
+LEVEL_NOTE = ("Trusted: Lean kernel (axioms propext, Classical.choice, Quot.sound), translator/adapter/oracle in harness/c15.py, "
+              "sampled correspondence (rows over NULL/ints/texts with quotes, %, _, SQL fragments; all 12 operations x value "
+              "kinds; malformed stream limited to one failing constructor per call), sqlite3/SQLite 3.40.1, str.upper on ASCII. "
+              "Out of the model: raw string conditions, column affinity, floats/blobs, ints beyond 64 bit, NUL characters, "
+              "GROUP BY semantics (text only), which exception wins when several conditions are malformed.")
+TECHNIQUE = ("Lean 4: WHERE-clause AST with 3-valued semantics, mutual induction over the nested condition tree; translator for "
+             "clause tables and text constants; differential run against SqlMethod + sqlite3; independent 3VL oracle in Python "
+             "with marker values for the bound-parameter checks")
